@@ -428,6 +428,9 @@ def rt(enc, opts, dumper_be, loader_be):
     D = _classes(dumper_be)[0]; L = _classes(loader_be)[1]
     if D is None or L is None: return dict(bad=[], outcome='no_c')
     v = decode(enc); o = _dump_opts(opts); bad = []
+    if len(enc) % 2 == 0:
+        from tools.values import share_dates
+        v = share_dates(v)                       # equal dates as one shared object (anchor + aliases in the output)
     try:
         text = yaml.dump(v, Dumper=D, **o)
     except Exception as e:
@@ -563,9 +566,14 @@ def _node_tags(text):
     except Exception: return None
     return tags
 
-def c01(text, loader_name):
+def c01(text, loader_name, warm=None):
     import yaml
     from tools.values import show
+    if warm is not None and hasattr(yaml, warm):
+        # history probe: the same document is first loaded by a *full* loader (which never imports, calls or instantiates: C04),
+        # so that anything the loader classes share by mistake (memo tables, caches) is filled before the safe load
+        try: list(yaml.load_all(text, Loader=getattr(yaml, warm)))
+        except Exception: pass
     r = _confined_load(text, loader_name, allow_getattr=True)     # hasattr/getattr on library objects is used by the loader itself; named-object access shows up as calls / types
     if r is None: return dict(bad=[], outcome='no_class')
     docs, exc, calls, imports, new_modules = r
@@ -708,7 +716,30 @@ def c14(text, expect_kind, exp_canon, exp_ordered, loader_name):
             bad.append(dict(kind='key_order', what='%s: key order differs from document order' % loader_name, loader=loader_name))
     return dict(bad=bad, outcome=got)
 
-HANDLERS.update({'c13': c13, 'c13m': c13, 'c14': c14})
+def c13x(kind, text, loader_name):
+    """hand-shaped identity probes the AST generator cannot express: (scalar) an anchored scalar whose construction yields a
+    fresh object every time (float, timestamp, binary, big int) - every alias must be THE object built for the anchor;
+    (selfkey) an object that refers to itself and is first reached as a mapping key / set member - buildable, so it must
+    load, and the reference must be the object itself."""
+    import yaml
+    L = getattr(yaml, loader_name, None)
+    if L is None: return dict(bad=[], outcome='no_class')
+    try: obj = yaml.load(text, Loader=L)
+    except yaml.YAMLError as e:
+        return dict(bad=[dict(kind='anchor_rule', what='%s: a valid document with %s is rejected (%s: %s)' % (loader_name, kind, type(e).__name__, str(e)[:80].replace('\n', ' ')), loader=loader_name, exc=type(e).__name__)], outcome='rejected')
+    except Exception as e:
+        return dict(bad=[dict(kind='non_yaml_exception', what='%s raised %s' % (loader_name, type(e).__name__), loader=loader_name, exc=type(e).__name__)], outcome='crash')
+    bad = []
+    if kind == 'scalar':
+        items = obj if isinstance(obj, list) else list(obj.values())
+        if not all(x is items[0] for x in items):
+            bad.append(dict(kind='identity', what='%s: aliases of an anchored scalar are not the object built for the anchor (ids differ) in %r' % (loader_name, text[:80]), loader=loader_name))
+    else:
+        k = next(iter(obj)) if not isinstance(obj, list) else next(iter(obj[0]))
+        if getattr(k, 'me', None) is not k: bad.append(dict(kind='identity', what='%s: the self-reference of an object used as a key is not the object itself' % loader_name, loader=loader_name))
+    return dict(bad=bad, outcome='ok')
+
+HANDLERS.update({'c13': c13, 'c13m': c13, 'c14': c14, 'c13x': c13x})
 
 # ---------------------------------------------------------------------------------------------------------------
 # C16: dumping is deterministic and stable
@@ -763,6 +794,9 @@ def c16(enc, opts, be, perm_seed):
     classes = _c16_classes(be)
     if not classes: return dict(bad=[], outcome='no_c')
     v = decode(enc); o = _dump_opts(opts); bad = []; digest = None; texts = {}
+    if perm_seed % 2 == 0:
+        from tools.values import share_dates
+        v = share_dates(v)                       # equal dates as ONE object: written with an anchor and aliases, read back as one object
     for D, L, dname in classes:
         try:
             t1 = yaml.dump(v, Dumper=D, **o)
@@ -1357,11 +1391,13 @@ def c20(side, family, n, opts):
     over = []
     for j in (0, 1):
         a, b2 = counts[j], counts[j + 1]; sa, sb = max(sizes[j], 1), max(sizes[j + 1], 1)
-        over.append((b2 * sa * 100 > 115 * a * sb + 40000 * sa, b2 * sa * 100 > 130 * a * sb + 40000 * sa))
-    if (over[0][0] and over[1][0]) or over[0][1] or over[1][1]:
+        over.append((b2 * sa * 100 > 115 * a * sb + 40000 * sa, b2 * sa * 100 > 130 * a * sb + 40000 * sa, b2 * sa * 100 > 108 * a * sb + 40000 * sa, (b2 * sa) / max(a * sb, 1)))
+    # ... or a growth that accelerates: 8% at the first doubling, more than that and more than 15% at the second (a quadratic term with a small coefficient)
+    accelerating = over[0][2] and over[1][0] and over[1][3] > over[0][3]
+    if (over[0][0] and over[1][0]) or over[0][1] or over[1][1] or accelerating:
         j = 0 if (over[0][1] or not over[1][1]) else 1
         a, b2 = counts[j], counts[j + 1]; sa, sb = max(sizes[j], 1), max(sizes[j + 1], 1)
-        bad.append(dict(kind='superlinear', what='%s family %s: %d calls for %d characters but %d calls for %d characters (calls per character grow by more than 15%% at both doublings or 30%% at one; counts %s for sizes %s)' % (side, family, a, sa, b2, sb, counts, sizes), counts=counts, sizes=sizes))
+        bad.append(dict(kind='superlinear', what='%s family %s: %d calls for %d characters but %d calls for %d characters (calls per character grow by more than 15%% at both doublings, 30%% at one, or 8%% then more than 15%% accelerating; counts %s for sizes %s)' % (side, family, a, sa, b2, sb, counts, sizes), counts=counts, sizes=sizes))
     return dict(bad=bad, outcome='ok' if not bad else 'superlinear', counts=counts, sizes=sizes)
 
 def c20prof(text):
